@@ -144,6 +144,12 @@ func (g *graphMemoizer) RemoveTriples(ctx context.Context, ts []*triple.Triple) 
 	return g.g.RemoveTriples(ctx, ts)
 }
 
+// drain receives and discards everything that is still sent to c.
+func drain[T any](c <-chan T) {
+	for range c {
+	}
+}
+
 func combinedUUID(op string, lo *storage.LookupOptions, uuids ...uuid.UUID) string {
 	var ss []string
 	for _, id := range uuids {
@@ -214,6 +220,10 @@ func (g *graphMemoizer) Objects(ctx context.Context, s *node.Node, p *predicate.
 	for o := range c {
 		select {
 		case <-ctx.Done():
+			// Let the wrapped lookup finish: nobody will receive from c any more,
+			// and a lookup blocked on it would keep whatever it holds (the memory
+			// driver holds the graph's read lock) forever.
+			go drain(c)
 			return errors.New("context cancelled")
 		case objs <- o:
 			// memoize the object.
@@ -287,6 +297,10 @@ func (g *graphMemoizer) Subjects(ctx context.Context, p *predicate.Predicate, o 
 	for s := range c {
 		select {
 		case <-ctx.Done():
+			// Let the wrapped lookup finish: nobody will receive from c any more,
+			// and a lookup blocked on it would keep whatever it holds (the memory
+			// driver holds the graph's read lock) forever.
+			go drain(c)
 			return errors.New("context cancelled")
 		case subs <- s:
 			// memoize the object.
@@ -350,6 +364,10 @@ func (g *graphMemoizer) PredicatesForSubject(ctx context.Context, s *node.Node, 
 	for p := range c {
 		select {
 		case <-ctx.Done():
+			// Let the wrapped lookup finish: nobody will receive from c any more,
+			// and a lookup blocked on it would keep whatever it holds (the memory
+			// driver holds the graph's read lock) forever.
+			go drain(c)
 			return errors.New("context cancelled")
 		case prds <- p:
 			// memoize the object.
@@ -413,6 +431,10 @@ func (g *graphMemoizer) PredicatesForObject(ctx context.Context, o *triple.Objec
 	for p := range c {
 		select {
 		case <-ctx.Done():
+			// Let the wrapped lookup finish: nobody will receive from c any more,
+			// and a lookup blocked on it would keep whatever it holds (the memory
+			// driver holds the graph's read lock) forever.
+			go drain(c)
 			return errors.New("context cancelled")
 		case prds <- p:
 			// memoize the object.
@@ -476,6 +498,10 @@ func (g *graphMemoizer) PredicatesForSubjectAndObject(ctx context.Context, s *no
 	for p := range c {
 		select {
 		case <-ctx.Done():
+			// Let the wrapped lookup finish: nobody will receive from c any more,
+			// and a lookup blocked on it would keep whatever it holds (the memory
+			// driver holds the graph's read lock) forever.
+			go drain(c)
 			return errors.New("context cancelled")
 		case prds <- p:
 			// memoize the object.
@@ -539,6 +565,10 @@ func (g *graphMemoizer) TriplesForSubject(ctx context.Context, s *node.Node, lo 
 	for t := range c {
 		select {
 		case <-ctx.Done():
+			// Let the wrapped lookup finish: nobody will receive from c any more,
+			// and a lookup blocked on it would keep whatever it holds (the memory
+			// driver holds the graph's read lock) forever.
+			go drain(c)
 			return errors.New("context cancelled")
 		case trpls <- t:
 			// memoize the object.
@@ -602,6 +632,10 @@ func (g *graphMemoizer) TriplesForPredicate(ctx context.Context, p *predicate.Pr
 	for t := range c {
 		select {
 		case <-ctx.Done():
+			// Let the wrapped lookup finish: nobody will receive from c any more,
+			// and a lookup blocked on it would keep whatever it holds (the memory
+			// driver holds the graph's read lock) forever.
+			go drain(c)
 			return errors.New("context cancelled")
 		case trpls <- t:
 			// memoize the object.
@@ -665,6 +699,10 @@ func (g *graphMemoizer) TriplesForObject(ctx context.Context, o *triple.Object, 
 	for t := range c {
 		select {
 		case <-ctx.Done():
+			// Let the wrapped lookup finish: nobody will receive from c any more,
+			// and a lookup blocked on it would keep whatever it holds (the memory
+			// driver holds the graph's read lock) forever.
+			go drain(c)
 			return errors.New("context cancelled")
 		case trpls <- t:
 			// memoize the object.
@@ -728,6 +766,10 @@ func (g *graphMemoizer) TriplesForSubjectAndPredicate(ctx context.Context, s *no
 	for t := range c {
 		select {
 		case <-ctx.Done():
+			// Let the wrapped lookup finish: nobody will receive from c any more,
+			// and a lookup blocked on it would keep whatever it holds (the memory
+			// driver holds the graph's read lock) forever.
+			go drain(c)
 			return errors.New("context cancelled")
 		case trpls <- t:
 			// memoize the object.
@@ -791,6 +833,10 @@ func (g *graphMemoizer) TriplesForPredicateAndObject(ctx context.Context, p *pre
 	for t := range c {
 		select {
 		case <-ctx.Done():
+			// Let the wrapped lookup finish: nobody will receive from c any more,
+			// and a lookup blocked on it would keep whatever it holds (the memory
+			// driver holds the graph's read lock) forever.
+			go drain(c)
 			return errors.New("context cancelled")
 		case trpls <- t:
 			// memoize the object.
@@ -869,6 +915,10 @@ func (g *graphMemoizer) Triples(ctx context.Context, lo *storage.LookupOptions, 
 	for t := range c {
 		select {
 		case <-ctx.Done():
+			// Let the wrapped lookup finish: nobody will receive from c any more,
+			// and a lookup blocked on it would keep whatever it holds (the memory
+			// driver holds the graph's read lock) forever.
+			go drain(c)
 			return errors.New("context cancelled")
 		case trpls <- t:
 			// memoize the object.
